@@ -48,6 +48,7 @@ ItemCode(cs, it) ==
   CASE it.t = "id"   -> Id(it.v)
     [] it.t = "kw"   -> Kw(it.v)
     [] it.t = "op"   -> Op(it.v)
+    [] it.t = "null" -> NullT
     [] it.t = "qual" -> QualG(it.p, it.v)
     [] it.t = "ref"  -> Tree(cs, it.c)
     [] it.t = "grp"  -> Grp(it.v, [i \in DOMAIN it.refs |-> Tree(cs, it.refs[i])])
@@ -92,6 +93,10 @@ NewId == /\ Step /\ Len(cells) < MaxCells /\ H("NewId", 0, 0, 0, "", Fresh, <<>>
 NewQual(p) == /\ Step /\ Len(cells) < MaxCells /\ H("NewQual", 0, 0, 0, p, Sym(p), <<>>)
               /\ cells' = Append(cells, [items |-> <<QualItem(p)>>])
               /\ UNCHANGED <<files, ntok, obs, bound>>
+\* jen.Null(): a placeholder that renders nothing until something is appended to it
+NewNull == /\ Step /\ Len(cells) < MaxCells /\ H("NewNull", 0, 0, 0, "", "", <<>>)
+           /\ cells' = Append(cells, [items |-> <<Item("null", "")>>])
+           /\ UNCHANGED <<files, ntok, obs, bound>>
 \* s.Id(tN): two adjacent identifiers do not format (the failing renders of the system tier)
 AppId(c) == /\ Step /\ Room(c) /\ H("AppId", 0, c, 0, "", Fresh, <<>>) /\ App(c, Item("id", Fresh))
             /\ ntok' = ntok + 1 /\ UNCHANGED <<files, obs, bound>>
@@ -103,10 +108,12 @@ AppDot(c) == /\ Step /\ Room(c) /\ H("AppDot", 0, c, 0, "", Fresh, <<>>)
 AppQual(c, p) == /\ Step /\ Room(c) /\ H("AppQual", 0, c, 0, p, Sym(p), <<>>)
                  /\ cells' = [cells EXCEPT ![c].items = @ \o <<Item("op", "+"), QualItem(p)>>]
                  /\ UNCHANGED <<files, ntok, obs, bound>>
-\* s.Call(d...) / s.Index(d...): the operands are stored by pointer
-AppGroup(c, g, rs) == /\ Step /\ Room(c) /\ \A i \in DOMAIN rs : c \notin Reach(cells, rs[i])
-                      /\ H("AppGroup", 0, c, 0, "", g, rs) /\ App(c, GrpItem(g, rs))
-                      /\ UNCHANGED <<files, ntok, obs, bound>>
+\* s.Call(d...) / s.Index(d...) / s.List(d...) (fv = 0) or the ...Func variant whose callback adds the same operands
+\* (fv = 1; C14: it builds the same group): the operands are stored by pointer.  List has no open / close token: it is
+\* null exactly as long as all its operands are
+AppGroup(c, g, rs, fv) == /\ Step /\ Room(c) /\ \A i \in DOMAIN rs : c \notin Reach(cells, rs[i])
+                          /\ H("AppGroup", 0, c, fv, "", g, rs) /\ App(c, GrpItem(g, rs))
+                          /\ UNCHANGED <<files, ntok, obs, bound>>
 \* s.Add(d): stores the pointer to d
 AddRef(c, d) == /\ Step /\ Room(c) /\ c \notin Reach(cells, d)
                 /\ H("AddRef", 0, c, d, "", "", <<>>) /\ App(c, RefItem(d))
@@ -185,10 +192,10 @@ Finish == /\ nops = MaxOps /\ nops' = MaxOps + 1
           /\ UNCHANGED <<cells, files, ntok, obs, bound, hist>>
 
 Next ==
-  \/ NewVar \/ NewId \/ \E p \in Paths : NewQual(p)
+  \/ NewVar \/ NewId \/ NewNull \/ \E p \in Paths : NewQual(p)
   \/ \E c \in DOMAIN cells : AppId(c) \/ AppDot(c) \/ CloneCell(c) \/ \E p \in Paths : AppQual(c, p)
-  \/ \E c, d \in DOMAIN cells : AddRef(c, d) \/ AppGroup(c, "call", <<d>>) \/ AppGroup(c, "index", <<d>>)
-  \/ \E c, d, e \in DOMAIN cells : AppGroup(c, "call", <<d, e>>)
+  \/ \E c, d \in DOMAIN cells : AddRef(c, d) \/ \E g \in {"call", "index", "list"}, fv \in {0, 1} : AppGroup(c, g, <<d>>, fv)
+  \/ \E c, d, e \in DOMAIN cells : \E g \in {"call", "list"} : AppGroup(c, g, <<d, e>>, 0)
   \/ \E f \in DOMAIN files, c \in DOMAIN cells : FileAdd(f, c) \/ RenderFragStep(c, f)
   \/ \E f \in DOMAIN files, p \in Paths : Anon(f, p) \/ \E n \in HintNames : ImportAlias(f, p, n) \/ (n # "." /\ ImportName(f, p, n))
   \/ \E f \in DOMAIN files : RenderFileStep(f)
